@@ -390,7 +390,48 @@ class Check:
         path = self.write_replay(re.sub(r"[^A-Za-z0-9_.-]", "_", key)[:80], dict(replay_obj, what=desc))
         self.violations.append((key, desc, path, " no-failing-input-found" if no_input else ""))
 
+    def extraction_crosscheck(self):
+        """Evaluate the remembered cases with vm_compute inside Coq and compare with what the extracted model printed."""
+        pairs = getattr(self, "_xcheck", [])
+        if not pairs or not os.path.exists(os.path.join(COQ, "Model", self.pid + ".vo")):
+            return
+        def zlit(t):
+            return "(%s)" % t if t.startswith("-") else t
+        def case_term(line):
+            return "[" + "; ".join("[" + "; ".join(zlit(t) for t in g.split()) + "]" for g in line.split("|")) + "]"
+        d = os.path.join(BUILD, self.pid)
+        os.makedirs(d, exist_ok=True)
+        src = os.path.join(d, "xcheck.v")
+        with open(src, "w") as f:
+            f.write("From Coq Require Import ZArith List String. Import ListNotations. Open Scope Z_scope.\nFrom Verif Require Import Model.%s.\n" % self.pid)
+            for k, (cs, _) in enumerate(pairs):
+                f.write("Definition r%d := Eval vm_compute in %s.run_case %s.\n" % (k, self.pid, case_term(cs)))
+                f.write("Print r%d.\n" % k)
+        rc, out = sh(["bash", "-c", "ulimit -s unlimited 2>/dev/null; timeout 600 coqc -Q %s Verif %s" % (COQ, src)], cwd=d)
+        for f_ in os.listdir(d):
+            if f_.startswith("xcheck.") and f_ != "xcheck.v" or f_ == ".xcheck.aux":
+                os.remove(os.path.join(d, f_))
+        if rc != 0:
+            self.cov["extraction_crosscheck"] = "coqc failed: " + out[-300:]
+            return
+        got = {}
+        for m in re.finditer(r"r(\d+) =\s*(\[.*?\])\s*:\s*list Z", out, re.S):
+            nums = re.findall(r"-?\d+", m.group(2))
+            got[int(m.group(1))] = " ".join(nums)
+        bad = []
+        for k, (cs, mo) in enumerate(pairs):
+            if k in got and got[k].split() != mo.split():
+                bad.append({"case": cs, "ocaml": mo, "vm_compute": got[k]})
+        self.cov["extraction_crosscheck"] = {"cases": len(got), "disagreements": len(bad)}
+        if bad:
+            self.broken.append({"kind": "extraction", "where": "ocaml/modelrun.ml + extraction vs vm_compute", "theorem": "extraction cross-check",
+                                "mismatches": len(bad), "examples": bad[:3], "log": ""})
+
     def finish(self, rule, level="proof", extra=None, assumptions=None):
+        try:
+            self.extraction_crosscheck()
+        except Exception as ex:   # never let the cross-check itself decide a verdict
+            self.cov["extraction_crosscheck"] = "skipped: %s" % ex
         # a broken obligation/correspondence with no failing input found is still a violation
         if self.broken and not self.violations:
             for b in self.broken:
@@ -440,6 +481,15 @@ def fmt_bytes(toks):
 
 def correspond(c, label, cases, impl, model, describe=None, limit=5):
     """Record implementation/model disagreements as a broken correspondence (not yet a violation)."""
+    # remember a few (case, model answer) pairs: finish() re-evaluates them inside Coq with vm_compute, which
+    # cross-checks extraction + the OCaml driver against the kernel's own evaluation of the same run_case
+    if not hasattr(c, "_xcheck"):
+        c._xcheck = []
+    if len(c._xcheck) < 36:
+        n = len(cases)
+        for i in sorted(set([0, n // 2, n - 1])) if n else []:
+            if len(cases[i]) < 1500 and len(model[i]) < 4000:
+                c._xcheck.append((cases[i], model[i]))
     bad = diff_lines(cases, impl, model)
     if bad:
         ex = [{"case": cases[i], "impl": impl[i], "model": model[i], "note": describe(cases[i]) if describe else ""} for i in bad[:limit]]
